@@ -185,6 +185,47 @@ where
     }
 }
 
+/// Texts and images: the object that `Transform::translate` (mode 0) / `translate_mut` (mode 1) RETURNS is drawn itself
+/// (not a drawable rebuilt from its public position); returns the next position (texts) and its `bounding_box()`.
+pub fn draw_translated_object<C, T>(d: &Value, by: Point, mode: u32, t: &mut T) -> Result<(Option<Point>, Rectangle), T::Error>
+where
+    C: ImgCol,
+    T: DrawTarget<Color = C>,
+    for<'a> ImageRaw<'a, C>: ImageDrawable<Color = C>,
+{
+    match d["kind"].as_str().unwrap() {
+        "image" => {
+            let center = i(&d["center"]) == 1;
+            with_image!(d, C, |img, pos| {
+                let im = mk_image(img, pos, center);
+                let moved = if mode == 1 {
+                    let mut m = im;
+                    m.translate_mut(by);
+                    m
+                } else {
+                    im.translate(by)
+                };
+                moved.draw(t)?;
+                Ok((None, moved.bounding_box()))
+            })
+        }
+        "text" => {
+            let s = string_of(&d["s"]);
+            let tx = mk_text_desc(&s, d, char_style::<C>(d));
+            let moved = if mode == 1 {
+                let mut m = tx;
+                m.translate_mut(by);
+                m
+            } else {
+                tx.translate(by)
+            };
+            let next = moved.draw(t)?;
+            Ok((Some(next), moved.bounding_box()))
+        }
+        k => panic!("draw_translated_object: kind {}", k),
+    }
+}
+
 /// `bounding_box()` of the described drawable.
 pub fn bbox_desc<C>(d: &Value) -> Rectangle
 where
